@@ -385,6 +385,12 @@ theorem Q_ne_zero_int : (Q : ℤ) ≠ 0 := by exact_mod_cast Q_pos.ne'
 theorem Q_pos_int : 0 < (Q : ℤ) := by exact_mod_cast Q_pos
 theorem Q_gt_one_int : 1 < (Q : ℤ) := by exact_mod_cast (lt_trans (by norm_num) Q_gt_two : 1 < Q)
 
+/-- normal form of the generated predicate (propositional reshuffling only) -/
+theorem is_extended_zero_def (X Y Z T : ℤ) : spake_is_extended_zero X Y Z T ↔
+    (X = 0 ∧ Y % (Q:ℤ) = Z % (Q:ℤ) ∧ Y % (Q:ℤ) ≠ 0) := by
+  simp only [spake_is_extended_zero] <;>
+    (generalize Y % (Q:ℤ) = a; generalize Z % (Q:ℤ) = b; tauto)
+
 section Main
 variable [Fact (Nat.Prime Q)]
 
@@ -586,11 +592,7 @@ theorem int_eq_zero_of_cast {X : ℤ} (h0 : 0 ≤ X) (h1 : X < Q) (h : (X:F) = 0
 theorem is_extended_zero_correct {X Y Z T : ℤ} (h : Valid X Y Z T) :
     (spake_is_extended_zero X Y Z T ↔ pt X Y Z = eO) := by
   obtain ⟨hX0, hX1, hY0, hY1, hZ0, hZ1, -, -, hZ, -, -⟩ := h
-  have hdef : spake_is_extended_zero X Y Z T ↔
-      (X = 0 ∧ Y % (Q:ℤ) = Z % (Q:ℤ) ∧ Y % (Q:ℤ) ≠ 0) := by
-    simp only [spake_is_extended_zero] <;>
-      (generalize Y % (Q:ℤ) = a; generalize Z % (Q:ℤ) = b; tauto)
-  rw [hdef]
+  rw [is_extended_zero_def]
   simp only [pt, eO, Prod.mk.injEq]
   constructor
   · rintro ⟨hx, hyz, -⟩
